@@ -2,8 +2,18 @@
 
 package main
 
-import "wrverif/c07"
+import (
+	"os"
+
+	"wrverif/c07"
+)
 
 func init() {
+	// the same binary re-executed with this variable set is the search child process (a fatal error
+	// in a parser - stack exhaustion, out of memory - then kills the child, not the run)
+	if os.Getenv(c07.ChildEnv) != "" {
+		c07.ChildMain()
+		os.Exit(0)
+	}
 	runners["C07"] = func(c *Ctx) error { return c07.Run(c.Tier, c.Seed, c.ModelPath, c.Repo, c.R) }
 }
